@@ -360,7 +360,8 @@ class CHECK(vlib.Check):
                 "SwapEntryMaps, RemoveEntry (storage part), PushToFreeList/PopFromFreeList, the rebuild of EnsureSize, the growth rule of PutAux, "
                 "ComputeTableIndexTypeForTableSize; proved: chain / permutation / free-list invariant, GetEntry finds exactly the stored keys, "
                 "finite-map laws, reallocation keeps every binding, every index fits its width below the sentinel, and for all histories of "
-                "Put/Get/Remove/EnsureSize the results equal those of the L1 model (C09_store_refines_l1); compared slot by slot with the "
+                "Put/Get/Remove/EnsureSize the results equal those of the L1 model (C09_store_refines_l1) and the reallocation order is the L1 "
+                "iteration order (C09_store_order_is_iteration_order); compared slot by slot with the "
                 "implementation after every operation (streams store / store-width, crossing 255 slots).  Not modelled: the iterator re-pointing "
                 "inside EnsureSize at slot level (L1 keeps abstract node ids), hash functors (the storage theorems hold for an arbitrary hash "
                 "function), thread-id bookkeeping of iterator registration; the 65535/65536 crossing is exercised by the oracle-only big stream.")
